@@ -22,6 +22,12 @@ pub use korosensei::Coroutine;
 #[cfg(feature = "korosensei")]
 mod korosensei;
 
+/// The coroutine a cancel signal (`SIGVTALRM`) is meant for: written before the signal is sent,
+/// compared in the handler, which runs on whatever coroutine the thread is executing by then.
+#[cfg(unix)]
+pub(crate) static CANCEL_SIGNAL_TARGET: std::sync::atomic::AtomicU64 =
+    std::sync::atomic::AtomicU64::new(0);
+
 /// Create a new coroutine.
 #[macro_export]
 macro_rules! co {
@@ -152,12 +158,21 @@ impl<'c, Param, Yield, Return> Coroutine<'c, Param, Yield, Return> {
             .compare_exchange(false, true, Ordering::Acquire, Ordering::Relaxed)
             .is_ok()
         {
-            extern "C" fn sigvtalrm_handler<Param, Yield>(_: libc::c_int) {
+            extern "C" fn sigvtalrm_handler<Param, Yield, Return>(_: libc::c_int) {
                 if let Ok(mut set) = SigSet::thread_get_mask() {
                     //删除对SIGVTALRM信号的屏蔽，使信号处理函数即使在处理中，也可以再次进入信号处理函数
                     set.remove(Signal::SIGVTALRM);
                     set.thread_set_mask()
                         .expect("Failed to remove SIGVTALRM signal mask!");
+                    // the thread may have moved on to another coroutine since the signal was sent:
+                    // only the coroutine the cancel was meant for ends here (the request also sits
+                    // in the scheduler's cancel set, which catches the intended one at its next turn)
+                    let meant = Coroutine::<Param, Yield, Return>::current()
+                        .is_some_and(|co| CANCEL_SIGNAL_TARGET.load(Ordering::Acquire) == co.id());
+                    if !meant {
+                        return;
+                    }
+                    CANCEL_SIGNAL_TARGET.store(0, Ordering::Release);
                     if let Some(suspender) = suspender::Suspender::<Param, Yield>::current() {
                         suspender.cancel();
                     }
@@ -167,7 +182,7 @@ impl<'c, Param, Yield, Return> Coroutine<'c, Param, Yield, Return> {
             let mut set = SigSet::empty();
             set.add(Signal::SIGVTALRM);
             let sa = SigAction::new(
-                SigHandler::Handler(sigvtalrm_handler::<Param, Yield>),
+                SigHandler::Handler(sigvtalrm_handler::<Param, Yield, Return>),
                 SaFlags::SA_RESTART,
                 set,
             );
